@@ -564,7 +564,9 @@ def money_texts(q, code, cfg, every=False, salt=0, suffix=""):
     """spellings of an amount of money; q is the amount *before* the suffix is applied"""
     n = number_text(q_fraction(q), cfg["dec"], cfg["tho"]) + suffix
     sp = currency_spellings(code)
-    out = [("code", "%s %s" % (n, code)), ("CODE", "%s %s" % (n, code.upper())), ("glued", "%s%s" % (n, code)) if not suffix else ("code2", "%s  %s" % (n, code))]
+    # Appendix B: an amount of 0 glued to a code that starts with b, o or x spells the prefix of a based literal (0bdt, 0xaf)
+    based_hazard = n.lstrip("+-") == "0" and code[:1].lower() in "box"
+    out = [("code", "%s %s" % (n, code)), ("CODE", "%s %s" % (n, code.upper())), ("glued", "%s%s" % (n, code)) if not suffix and not based_hazard else ("code2", "%s  %s" % (n, code))]
     for s in sp["symbols"]:
         out.append(("sym_before", "%s%s" % (s, n)))
         out.append(("sym_after", "%s %s" % (n, s)))
